@@ -640,7 +640,134 @@ def rule_subaxis(ctx):
             ctx.holds('R7', 'Axis.take')
 
 
+def rule_orthogonal_indexer(ctx):
+    """R8: kind-level abstract interpretation of orthogonal_indexer over all key patterns of length 1..4 on {int, full slice, partial slice, 1-d array}.
+    NumPy's rule (trusted): when a key contains an array, integers count as advanced indices too; advanced indices separated by a slice move the
+    advanced dimensions to the front.  Orthogonal (outer) indexing therefore needs (a) every array / partial slice converted by np.ix_ when more than
+    one dimension is array-indexed, and (b) no slice left in the key strictly between two advanced entries."""
+    import itertools
+    from .. import absint
+    from ..absint import Kind, Interp, Closure, Undecided, Raised
+    ctx.rule('R8', 'orthogonal_indexer keeps the dimension order for every key pattern (length <= 4)', 300)
+    fi = ctx.fn(IDX + 'orthogonal_indexer')
+    mod = fi.module
+    kind_types = {'INT': {'int', 'np.integer'}, 'FULL': {'slice'}, 'SL': {'slice'}, 'ARR': {'np.ndarray'}, 'IX': {'np.ndarray'}}
+    nbad = 0
+    nok = 0
+
+    def ix_(args, kwargs):
+        for a in args:
+            if not (isinstance(a, Kind) and a.name == 'ARR'):
+                raise Undecided('np.ix_ on %r' % (a,))
+        return [Kind('IX') for _ in args]
+    ext = {'canonicalize_indexer': lambda args, kw: tuple(args[0]), 'np.ix_': ix_, '_expand_slice': lambda args, kw: Kind('ARR')}
+    for n in range(1, 5):
+        for pat in itertools.product(['INT', 'FULL', 'SL', 'ARR'], repeat=n):
+            interp = Interp(ext, kind_types)
+            env = {}
+            for name, f in mod.functions.items():
+                if name not in ext and name != fi.name:
+                    env[name] = Closure(f.node, env, interp)
+            key = tuple(Kind(k) for k in pat)
+            shape = tuple(range(2, 2 + n))
+            try:
+                out = interp.call_function(fi.node, [key, shape], env)
+            except Undecided as e:
+                ctx.undecide('R8', 'orthogonal_indexer: %s (pattern %s)' % (e, pat))
+                return
+            except Raised as e:
+                ctx.violated('R8', fi, 'pattern %s raises %s' % (','.join(pat), e.name), 'orthogonal_indexer raises %s for the index kinds (%s)' % (e.name, ', '.join(pat)))
+                nbad += 1
+                continue
+            if not (isinstance(out, tuple) and len(out) == n and all(isinstance(k, Kind) for k in out)):
+                ctx.undecide('R8', 'orthogonal_indexer returned %r for %s' % (out, pat))
+                return
+            res = [k.name for k in out]
+            narr = sum(1 for k in pat if k in ('ARR', 'SL'))
+            why = None
+            for i, (a, b) in enumerate(zip(pat, res)):
+                if a == 'INT' and b != 'INT':
+                    why = 'an integer index (position %d) must stay an integer: it is what drops the dimension' % i
+                if a == 'ARR' and b != 'IX' and sum(1 for k in pat if k == 'ARR') + sum(1 for k in res if k == 'IX') > 1:
+                    why = 'array index at position %d is not converted by np.ix_ although another dimension is array-indexed: NumPy would pair the arrays element-wise' % i
+                if a == 'FULL' and b not in ('FULL', 'IX'):
+                    why = 'full slice changed into %s' % b
+            if why is None and any(k == 'IX' for k in res):
+                adv = [i for i, k in enumerate(res) if k in ('IX', 'INT')]
+                for i, k in enumerate(res):
+                    if k in ('FULL', 'SL') and adv and min(adv) < i < max(adv):
+                        why = ('the slice at position %d is left between advanced indices (%s): NumPy moves the indexed dimensions to the front, so the values '
+                               'come back transposed against the labels' % (i, ', '.join('%s@%d' % (res[j], j) for j in adv)))
+                        break
+            if why:
+                nbad += 1
+                if nbad <= 3:
+                    ctx.violated('R8', fi, 'key kinds (%s) -> (%s)' % (', '.join(pat), ', '.join(res)), why)
+            else:
+                nok += 1
+                ctx.holds('R8', '(%s) -> (%s)' % (','.join(pat), ','.join(res)))
+    # the indexer is applied to the canonicalised key
+    ev = run(ctx, fi, mode='join')
+    if not any(T.call_name(e.a) == 'canonicalize_indexer' and e.a[2][:1] == (P_('key'),) for p in ev.paths for e in p.calls('canonicalize_indexer')):
+        ctx.violated('R8', fi, 'canonicalize_indexer', 'the key must be canonicalised (booleans -> positions, scalars -> int) before it is classified')
+
+
+def rule_expanded_indexer(ctx):
+    """R9: abstract interpretation of expanded_indexer over keys of length 0..4 with 0..2 Ellipsis items and ndim 0..4"""
+    import itertools
+    from ..absint import Kind, Interp, Closure, Undecided, Raised
+    ctx.rule('R9', 'expanded_indexer: Ellipsis expansion and padding', 100)
+    fi = ctx.fn(IDX + 'expanded_indexer')
+    kind_types = {'X': set(), 'ELLIPSIS': set(), 'FULL': {'slice'}}
+    nbad = 0
+    for ndim in range(0, 5):
+        for n in range(0, 5):
+            for pat in itertools.product(['X', 'ELLIPSIS'], repeat=n):
+                if pat.count('ELLIPSIS') > 2:
+                    continue
+                items = [Kind('X%d' % i) if k == 'X' else Kind('ELLIPSIS') for i, k in enumerate(pat)]
+                for it in items:
+                    kind_types.setdefault(it.name, set())
+                forms = [tuple(items)] + ([items[0]] if n == 1 and pat[0] == 'X' else [])
+                for key in forms:
+                    interp = Interp({}, kind_types)
+                    # reference semantics
+                    ne = pat.count('ELLIPSIS')
+                    nx = n - ne
+                    want = None
+                    if ne == 0:
+                        want = list(items) + [Kind('FULL')] * (ndim - n) if n <= ndim else 'IndexError'
+                    else:
+                        fill = ndim + 1 - n
+                        exp = []
+                        first = True
+                        for it in items:
+                            if it.name == 'ELLIPSIS':
+                                exp.extend([Kind('FULL')] * (max(fill, 0) if first else 1))
+                                first = False
+                            else:
+                                exp.append(it)
+                        want = (exp + [Kind('FULL')] * (ndim - len(exp))) if len(exp) <= ndim else 'IndexError'
+                    try:
+                        out = interp.call_function(fi.node, [key, ndim], {})
+                        got = list(out) if isinstance(out, tuple) else out
+                    except Raised as e:
+                        got = e.name
+                    except Undecided as e:
+                        ctx.undecide('R9', 'expanded_indexer: %s' % e)
+                        return
+                    if got != want:
+                        nbad += 1
+                        if nbad <= 3:
+                            ctx.violated('R9', fi, 'key (%s), ndim=%d -> %s' % (', '.join(pat), ndim, got), 'expanded_indexer must expand the first Ellipsis to the missing '
+                                         'full slices, keep the other items in order and pad with full slices to ndim entries (IndexError when too long): expected %s' % (want,))
+                    else:
+                        ctx.holds('R9', 'key (%s) ndim=%d' % (','.join(pat), ndim))
+
+
 def check(ctx):
+    rule_orthogonal_indexer(ctx)
+    rule_expanded_indexer(ctx)
     rule_registry(ctx)
     rule_locate_one(ctx)
     rule_locate_many(ctx)
